@@ -565,7 +565,9 @@ class NeuralStateBase(abc.ABC):
         if time:
             callbacks.append(Timer())
 
-        neg_batch_size = neg_batch_size if neg_batch_size else pos_batch_size
+        # plain Python ints: narrow numpy integer types wrap in the batch arithmetic
+        pos_batch_size = int(pos_batch_size)
+        neg_batch_size = int(neg_batch_size) if neg_batch_size else pos_batch_size
 
         if isinstance(data, torch.Tensor):
             train_samples = (
